@@ -118,6 +118,44 @@ pub fn run_c17(ctx: &mut Ctx, from: u64, to: u64) {
                 return Err(("C17:reader_consumed_unexpected_number_of_bytes".into(), J::obj(vec![("consumed", J::i(used)), ("expected", J::i(consumed))])));
             }
             let ser = m.to_vec().map_err(|e| ("C17:converted_model_cannot_be_serialised".to_string(), J::s(format!("{e}"))))?;
+            // a source that hands out 1..3 bytes per read call (pipes, decompressors) must give the same model
+            {
+                struct Dribble<'a>(&'a [u8], usize, usize);
+                impl std::io::Read for Dribble<'_> {
+                    fn read(&mut self, buf: &mut [u8]) -> std::io::Result<usize> {
+                        self.2 += 1;
+                        if self.2 % 7 == 3 {
+                            return Err(std::io::Error::new(std::io::ErrorKind::Interrupted, "interrupted"));
+                        }
+                        let n = buf.len().min(1 + self.2 % 3).min(self.0.len() - self.1);
+                        buf[..n].copy_from_slice(&self.0[self.1..self.1 + n]);
+                        self.1 += n;
+                        Ok(n)
+                    }
+                }
+                let mut rd = std::io::BufReader::with_capacity(2, Dribble(&bytes, 0, 0));
+                let km = KyteaModel::read(&mut rd).map_err(|e| ("C17:valid_kytea_file_rejected_when_read_in_small_pieces".to_string(), J::s(format!("{e}"))))?;
+                let m2 = Model::try_from(km).map_err(|e| ("C17:valid_kytea_file_rejected_when_read_in_small_pieces".to_string(), J::s(format!("{e}"))))?;
+                if m2.to_vec().ok().as_deref() != Some(&ser[..]) {
+                    return Err(("C17:short_reads_change_the_converted_model".into(), J::Null));
+                }
+                struct Short(Vec<u8>, usize);
+                impl std::io::Write for Short {
+                    fn write(&mut self, buf: &[u8]) -> std::io::Result<usize> {
+                        let n = buf.len().min(self.1);
+                        self.0.extend_from_slice(&buf[..n]);
+                        Ok(n)
+                    }
+                    fn flush(&mut self) -> std::io::Result<()> {
+                        Ok(())
+                    }
+                }
+                let mut sw = Short(vec![], 1 + ser.len() % 97);
+                m2.write(&mut sw).map_err(|e| ("C17:converted_model_cannot_be_written".to_string(), J::s(format!("{e}"))))?;
+                if sw.0 != ser {
+                    return Err(("C17:converted_model_written_through_short_writer_is_incomplete".into(), J::obj(vec![("written", J::i(sw.0.len())), ("expected", J::i(ser.len()))])));
+                }
+            }
             let (got, _) = ModelData::from_bytes(&ser).map_err(|e| ("C17:converted_model_unreadable_by_mirror".to_string(), J::s(&e)))?;
             let got = normalised(&got);
             if got != want {
